@@ -10,7 +10,7 @@ from .c01 import shares_net
 
 PID = "C05"
 LEVEL = "exploration"
-RULE = ("Valid designs from the C01 generator (4 in 10 with all designer-chosen module-level names in upper case, 2 in 10 with a leading underscore on all internal names); the names Hdl21 invents per module (implicit port-reference and no-connect "
+RULE = ("Valid designs from the C01 generator (4 in 10 with all designer-chosen module-level names in upper case, 2 in 10 with a leading underscore on all internal names, 1 in 10 with an instance name so long that an invented name reaches the 511-character limit); the names Hdl21 invents per module (implicit port-reference and no-connect "
         "signals, named no-connects, flattened bundle members, array elements, pair members) are learnt from a first export; then "
         "1-4 designer objects (internal signals, ports incl. ports of sub-modules, instances, bundle instances, no-connect names) "
         "are renamed onto those names or their '_' / '__' variants, in varying declaration orders and construction styles. Oracle: "
@@ -172,6 +172,23 @@ def underscored(spec):
     return s
 
 
+def longnamed(spec, d):
+    """The same design with one instance renamed so that '<instance>_<port>' is exactly as long as the longest name the
+    elaborator will invent (511 characters): the clash-avoiding suffixes have no room left."""
+    s = copy.deepcopy(spec)
+    cands = [(mi, inst) for mi, m in enumerate(s["modules"]) if not m.get("history") for inst in m["insts"]]
+    if not cands:
+        return spec
+    mi, inst = d.choice(cands)
+    ports = [p[1] for p in model.target_iface(s, inst["of"]) if p[0] == "sig"]
+    if not ports:
+        return spec
+    pn = d.choice(ports)
+    new = ("L" + inst["name"]).ljust(511 - 1 - len(pn) - d.choice([0, 0, 1]), "x")
+    rename(s, mi, "inst", inst["name"], new)
+    return s
+
+
 def make_case(d, spec, invented):
     """Apply 1-4 adversarial renames to a copy of spec (draws through D d)."""
     s = copy.deepcopy(spec)
@@ -185,7 +202,8 @@ def make_case(d, spec, invented):
     if not mods:
         return None
     for _ in range(ncoll):
-        mi = d.choice(mods)
+        withlong = [k for k in mods if any(len(t) >= 509 for t in invented[k])]
+        mi = d.choice(withlong) if (withlong and d.bool(70)) else d.choice(mods)
         m = s["modules"][mi]
         ncn = sorted(nc_names(m))
         if ncn and d.bool(25):
@@ -199,7 +217,10 @@ def make_case(d, spec, invented):
             applied.append([mi, "nc", old, new])
             continue
         targets = [t + suf for t in invented[mi] for suf in ("", "", "_", "__")]
-        new = d.choice(targets)
+        longest = [t for t in invented[mi] if len(t) >= 509]
+        new = d.choice(longest) + d.choice(["", "", "_"]) if (longest and d.bool(70)) else d.choice(targets)
+        if len(new) > 511:
+            continue
         taken = designer_names(m)
         if new in taken:
             continue
@@ -238,15 +259,15 @@ def shard(idx, n, tier):
         spec = data.draw(gen.designs(opts))
         variant = data.draw(st.integers(0, 9))
         upper = variant < 4
-        if upper or variant in (4, 5):
+        if upper or variant in (4, 5, 6):
             feats0 = spec.get("features", [])
-            spec = upcase(spec) if upper else underscored(spec)
+            spec = upcase(spec) if upper else underscored(spec) if variant < 6 else longnamed(spec, gen.D(data.draw))
             try:
                 model.flatten(spec)
             except model.ModelError as e:
                 res.harness_error("upper-cased spec is ill-formed: %s" % e)
                 return
-            spec["features"] = list(feats0) + ["upper_case_names" if upper else "leading_underscore_names"]
+            spec["features"] = list(feats0) + ["upper_case_names" if upper else "leading_underscore_names" if variant < 6 else "name_at_length_limit"]
         inv = par.pristine(learn_invented, spec)
         if par.is_exc(inv):
             res.reject("base:" + inv[1])
@@ -265,7 +286,7 @@ def shard(idx, n, tier):
             res.harness_error("%s %s %s" % (v[1], v[2], v[3][-600:]))
             return
         feats = ["rename_" + r[1] for r in case["renames"]] + ["underscore_variant" for r in case["renames"] if r[3].endswith("_")]
-        feats += [f for f in spec.get("features", []) if f in ("upper_case_names", "leading_underscore_names", "named_noconn", "noconn", "array", "pair", "bundle_port", "portref_root_unconnected", "bundle_conn")]
+        feats += [f for f in spec.get("features", []) if f in ("upper_case_names", "leading_underscore_names", "name_at_length_limit", "named_noconn", "noconn", "array", "pair", "bundle_port", "portref_root_unconnected", "bundle_conn")]
         if v["status"] == "reject":
             res.reject(v["sig"])
             res.notes["resolved_by_raising"] += 1
